@@ -1,11 +1,11 @@
 package main
 
 import (
-	"go/constant"
-	"go/types"
 	"bufio"
 	"encoding/json"
 	"fmt"
+	"go/constant"
+	"go/types"
 	"os"
 	"path/filepath"
 	"sort"
@@ -24,23 +24,23 @@ type Obligation struct {
 
 // Ctx is the per-run reporting context.
 type Ctx struct {
-	P         *Prog
-	Prop      string
-	Tier      string
-	VerifDir  string
-	OutDir    string
+	P        *Prog
+	Prop     string
+	Tier     string
+	VerifDir string
+	OutDir   string
 	// AssumeFalse: regex of conditions assumed never to hold (package-level unsafe switches);
 	// success-implies rules ignore paths on which they hold.
 	AssumeFalse string
-	Obls      []Obligation
-	Explain   []string // what is decided / not decided
-	Assume    []string
-	Analysed  map[string]bool // functions analysed
-	known     map[string]string
-	tableUsed map[string]map[string]bool
-	tables    map[string]map[string]string
-	Extra     map[string]any
-	start     time.Time
+	Obls        []Obligation
+	Explain     []string // what is decided / not decided
+	Assume      []string
+	Analysed    map[string]bool // functions analysed
+	known       map[string]string
+	tableUsed   map[string]map[string]bool
+	tables      map[string]map[string]string
+	Extra       map[string]any
+	start       time.Time
 }
 
 func NewCtx(p *Prog, prop, tier, verifDir string) *Ctx {
